@@ -5,6 +5,10 @@
 //! before the spawned MPC / constants task first runs, before the leader
 //! acquires its permit). Without an installed gate every call returns
 //! immediately, i.e. the code path is the original one.
+//!
+//! A harness may also install a *probe*: a synchronous callback that reports
+//! the private state kind after every handled command and a few other
+//! internal events (compile thread started / finished, spawned task ended).
 
 use std::{
     future::Future,
@@ -28,5 +32,22 @@ pub(crate) async fn gate(point: &'static str, detail: &'static str, tag: u64) {
     let g = GATE.read().expect("verif gate lock").clone();
     if let Some(g) = g {
         g(point, detail, tag).await;
+    }
+}
+
+/// `(point, detail, tag)`; see the call sites in `state.rs`.
+pub type ProbeFn = Arc<dyn Fn(&'static str, &str, u64) + Send + Sync>;
+
+static PROBE: RwLock<Option<ProbeFn>> = RwLock::new(None);
+
+/// Install (or remove) the process-wide probe function.
+pub fn set_probe(p: Option<ProbeFn>) {
+    *PROBE.write().expect("verif probe lock") = p;
+}
+
+pub(crate) fn probe(point: &'static str, detail: &str, tag: u64) {
+    let p = PROBE.read().expect("verif probe lock").clone();
+    if let Some(p) = p {
+        p(point, detail, tag);
     }
 }
